@@ -76,6 +76,29 @@ CLAIMED["C05"] = dict(
     note="trusted: as C01; gen/dnsgen.py:encode_plain is the independent canonical encoder used as oracle",
     technique="Coq proof (frame/append invariants over the re-emission) + correspondence with canonical-encoder oracle at every record boundary")
 
+CLAIMED["C13"] = dict(
+    category="proof",
+    text="Coq theorem C13_synth_total: for every byte string, RR::from_string returns Ok or Err in the model, never a Panic outcome (the grammar "
+         "model - chomp combinators with backtracking, checked decimal folds, escapes, hex digests, the IPv6 text parser, the nine builders - "
+         "has no partial operation). PARTIAL: that every text of the supported grammar yields exactly the RFC 1035 wire form, that the excluded "
+         "texts are errors, and that inserting the result keeps the packet acceptable, is decided each run by the correspondence on texts "
+         "rendered from abstract records (boundary values, arbitrary whitespace/case) against an independent encoder, on field-wise damaged "
+         "texts, and on arbitrary strings.",
+    ref="6/C13",
+    note="trusted: as C01 plus the hand reproduction of chomp1-0.3.4 combinators, hex::decode and Ipv6Addr::from_str in Model/Text.v "
+         "(exercised by the correspondence); strings are UTF-8",
+    technique="Coq proof (totality of the grammar model) + correspondence with independent RFC 1035 encoder oracle")
+CLAIMED["C14"] = dict(
+    category="proof",
+    text="Coq theorems: text-to-wire conversion is total and what it appends for an accepted text is 1..253 bytes, the text at most 253 bytes "
+         "(C14_from_str_total, C14_from_str_len). PARTIAL: the label-by-label statement (labels = dot-separated labels of the input plus zone; "
+         "LDH names within the limits accepted; empty/over-long labels rejected) and read-back through set_raw_name/name() are decided each run "
+         "by an exhaustive sweep of all 9331 strings of length <= 5 over {a,B,-,_,.,1}, boundary lengths 61..64 / 248..257, random LDH names "
+         "and arbitrary bytes, with and without zone, against an independent splitter.",
+    ref="6/C14",
+    note="trusted: as C01",
+    technique="Coq proof (totality and length bounds) + exhaustive short-name correspondence with independent splitter oracle")
+
 PENDING_REASON = "check not built yet in this round (model/theorems in progress; see DESIGN.md section 11 for the order of work)"
 
 
